@@ -3,6 +3,8 @@
   Statements are FIXED: prove them exactly as stated (helper lemmas go above them or in Cgp/Proofs/C08.lean).
 -/
 import Cgp.GatewaySpec
+import Cgp.Props.C03
+import Cgp.Toy
 namespace Cgp.Props.C08
 open Cgp Cgp.Xdr Cgp.Gateway
 
@@ -389,5 +391,64 @@ theorem after_k_rotations (w : World) (ops : List (Op σ)) (dh : Bytes) (proof :
   have he' : e ≤ (run H V w ops).1.st.epoch := by omega
   rw [retained_iff H V (run H V w ops).1.st dh proof e hst.1 he' hsig, hst.2, hep]
   omega
+
+/-! ### non-vacuity (the model RUN in the kernel on a concrete history, toy hash) -/
+section NonVacuity
+open Cgp.Toy
+
+def dst : Addr := ⟨true, List.replicate 32 9⟩
+def msg (i : UInt8) : Message := ⟨[97], [i], [98], dst, List.replicate 32 3⟩
+/-- retention 1; `pf0` is a proof by the FIRST set `ws0` -/
+def opsK : List (Op Unit) :=
+  [ .approve [msg 49] pf0,              -- no newer set: accepted
+    .rotate [] wsB pf0 false,           -- first rotation (epoch 2)
+    .approve [msg 50] pf0,              -- one newer set, retention 1: the first set is still honoured
+    .rotate [] wsC pfB false,           -- second rotation (epoch 3)
+    .approve [msg 51] pf0,              -- two newer sets: refused
+    .rotate [owner0] wsD pf0 true,      -- … also on the bypass path, with the operator's authorisation
+    .approve [msg 51] pfB ]             -- the second set now has one newer set: honoured
+
+/-- `GInv` of the constructed world comes from `Reachable` (empty history) -/
+theorem ginv_of_constructed (w0 : World) (h : constructed H0 owner0 owner0 [1] 0 1 [ws0] 5 = some w0) : GInv H0 w0.st :=
+  Cgp.Props.C03.GInv_reachable H0 V0 w0 ⟨owner0, owner0, [1], 0, 1, [ws0], 5, w0, [], h, rfl⟩
+
+/-- all hypotheses of `after_k_rotations` (and of `retained_iff`, `approve_retained_iff`, `nonbypass_needs_latest`,
+    `bypass_needs_retained`) hold on a concrete history with retention 1, and both sides of the equivalence occur: after one
+    rotation a proof by the first set is accepted (0 + 1 ≤ 1), after two it is refused (0 + 2 > 1) — on the approval path
+    and on the bypass-rotation path alike -/
+theorem after_k_rotations_nonvacuous :
+    ∃ w0, constructed H0 owner0 owner0 [1] 0 1 [ws0] 5 = some w0 ∧
+      GInv H0 w0.st ∧
+      -- the signature hypothesis, at k = 1 and at k = 2
+      validateSignaturesLoop V0 (messageHashToSign H0 (run H0 V0 w0 (opsK.take 2)).1.st.domain
+          (signersHash H0 pf0.weightedSigners) (approveDataHash H0 [msg 50])) pf0.threshold pf0.signers 0 = .ok true ∧
+      validateSignaturesLoop V0 (messageHashToSign H0 (run H0 V0 w0 (opsK.take 4)).1.st.domain
+          (signersHash H0 pf0.weightedSigners) (approveDataHash H0 [msg 51])) pf0.threshold pf0.signers 0 = .ok true ∧
+      -- k = 1: accepted (left-hand side of the equivalence, and on the approval path)
+      (∃ b, validateProof H0 V0 (run H0 V0 w0 (opsK.take 2)).1.st (approveDataHash H0 [msg 50]) pf0 = .ok b) ∧
+      (∃ r, approveMessages H0 V0 (run H0 V0 w0 (opsK.take 2)).1.st [msg 50] pf0 = .ok r) ∧
+      -- `nonbypass_needs_latest` / `bypass_needs_retained`: successful rotations of both kinds
+      (∃ r, rotateSigners H0 V0 (run H0 V0 w0 (opsK.take 3)).1.st [] wsC pfB false 5 = .ok r) ∧
+      (∃ r, rotateSigners H0 V0 (run H0 V0 w0 (opsK.take 3)).1.st [owner0] wsC pf0 true 5 = .ok r) ∧
+      -- installed at epoch 1, retention 1
+      w0.st.epochByHash (signersHash H0 pf0.weightedSigners) = some 1 ∧ 1 ≤ w0.st.epoch ∧ w0.st.retention = 1 ∧
+      (run H0 V0 w0 opsK).2.map gwErr =
+        [none, none, none, none, some .outdatedSigners, some .outdatedSigners, none] ∧
+      -- k = 1: right-hand side
+      rotations (opsK.take 2) (run H0 V0 w0 (opsK.take 2)).2 = 1 ∧
+      (w0.st.epoch - 1) + rotations (opsK.take 2) (run H0 V0 w0 (opsK.take 2)).2 ≤ w0.st.retention ∧
+      -- k = 2: refused, both sides false
+      rotations (opsK.take 4) (run H0 V0 w0 (opsK.take 4)).2 = 2 ∧
+      (validateProof H0 V0 (run H0 V0 w0 (opsK.take 4)).1.st (approveDataHash H0 [msg 51]) pf0).isOk = false ∧
+      ¬ ((w0.st.epoch - 1) + rotations (opsK.take 4) (run H0 V0 w0 (opsK.take 4)).2 ≤ w0.st.retention) ∧
+      -- `retained_iff` at the world after two rotations: installed at 1, epoch 3
+      (run H0 V0 w0 (opsK.take 4)).1.st.epochByHash (signersHash H0 pf0.weightedSigners) = some 1 ∧
+      (run H0 V0 w0 (opsK.take 4)).1.st.epoch = 3 := by
+  refine ⟨_, rfl, ginv_of_constructed _ rfl, eq_ok_true_of _ (by decide +kernel), eq_ok_true_of _ (by decide +kernel),
+    exists_ok_of_isOk _ (by decide +kernel), exists_ok_of_isOk _ (by decide +kernel),
+    exists_ok_of_isOk _ (by decide +kernel), exists_ok_of_isOk _ (by decide +kernel), ?_⟩
+  decide +kernel
+
+end NonVacuity
 
 end Cgp.Props.C08
